@@ -101,6 +101,10 @@ def sources(tier, seed, ctx):
     w = {'into_bench': 4, 'add_gate': 12, 'make_block': 3, 'connect': 2}
     for j in range(nrand):
         srcs.append({'k': 'rand', 'seed': rng.randrange(10**9), 'n': rng.randint(5, 14), 'w': w, 'from': 'rand'})
+    # deep circuits: one path longer than the interpreter's recursion limit, comparison gates all along it
+    for depth in ([1500] if tier == 'quick' else [1500, 4000]):
+        srcs.append({'k': 'deep', 'depth': depth})
+        srcs.append({'k': 'deep', 'depth': depth, 'rev': True})
     ctx['gen_note'] = '; '.join(note)
     return srcs
 
@@ -161,7 +165,18 @@ def parse_dot(dot):
     return {'nodes': nodes, 'edges': edges, 'clusters': clusters}
 
 
+def _bench_copy(c):
+    import copy
+    cb = copy.copy(c)
+    cb.into_bench()
+    return cb
+
+
 def record(src):
+    if src['k'] == 'deep':
+        from .. import deep
+        # helper gates are allowed: more gates than before, all of bench types
+        return deep.transform_case(PROP, 'into_bench', src, _bench_copy, types=deep.BENCHY, not_larger=False, allowed=sorted(set(gen.BENCH_TYPES) | {'INPUT'}))
     if src['k'] == 'graphviz':
         from .. import hist
 
@@ -187,7 +202,7 @@ def record(src):
 
 
 def nontrivial(case):
-    if case['kind'] == 'draw':
+    if case['kind'] in ('draw', 'transformdeep'):
         return True
     bench = set(gen.BENCH_TYPES) | {'INPUT'}
     first = case['init']
@@ -196,6 +211,8 @@ def nontrivial(case):
 
 
 def features(case):
+    if case['kind'] == 'transformdeep':
+        return {'deep:into_bench'}
     if case['kind'] == 'draw':
         return {'graphviz-as-bench'} | ({'graphviz-with-block-clusters'} if case['clusters'] else set())
     seen = H.step_features(case, {'into_bench'})
